@@ -47,7 +47,10 @@ func (impl Implementation) Dlapll(n int, x []float64, incX int, y []float64, inc
 	bi := blas64.Implementation()
 	c := -tau * bi.Ddot(n, x, incX, y, incY)
 	bi.Daxpy(n, c, x, incX, y, incY)
-	a11, _ := impl.Dlarfg(n-1, y[incY], y[2*incY:], incY)
+	a11 := y[incY]
+	if n > 2 {
+		a11, _ = impl.Dlarfg(n-1, y[incY], y[2*incY:], incY)
+	}
 
 	// Compute the SVD of 2-by-2 upper triangular matrix.
 	ssmin, _ := impl.Dlas2(a00, y[0], a11)
